@@ -898,6 +898,13 @@ func (w *World) errorEdges(fn *ssa.Function, subst func(string) string, depth in
 
 func (w *World) errorEdgesT(fn *ssa.Function, subst func(string) string, depth int, top *ssa.BasicBlock) []errEdge {
 	var out []errEdge
+	if depth > 0 {
+		// a helper's edges are phrased over its own parameter names (the caller substitutes the arguments)
+		if via, had := enteredBy[fn]; had {
+			delete(enteredBy, fn)
+			defer func() { enteredBy[fn] = via }()
+		}
+	}
 	for _, b := range fn.Blocks {
 		if len(b.Instrs) == 0 {
 			continue
@@ -1162,6 +1169,10 @@ func sliceBase(v ssa.Value) ssa.Value {
 				v = in
 				continue
 			}
+			if up := enteringArg(v); up != nil {
+				v = up
+				continue
+			}
 			return v
 		}
 	}
@@ -1374,15 +1385,37 @@ func ruleC16(w *World) {
 	if vpop == nil || gpop == nil {
 		return
 	}
-	for _, c := range callsTo(vpop, "Verify") {
-		args := c.Common().Args
-		if u, ok := stripConv(args[len(args)-1]).(*ssa.UnOp); ok {
-			popG, _ = u.X.(*ssa.Global)
+	// located by role: the package-level hasher whose initialiser is the internal constructor applied to the PoP suite
+	wantInit := fmt.Sprintf("%s(%q)", inner.Name(), popSuite)
+	for _, fn := range w.srcFuncs(rootPath) {
+		if !(fn.Name() == "init" || strings.HasPrefix(fn.Name(), "init#")) {
+			continue
 		}
+		instrsFlat(fn, func(ins ssa.Instruction) {
+			if st, ok := ins.(*ssa.Store); ok {
+				if g, ok := st.Addr.(*ssa.Global); ok && render(st.Val) == wantInit {
+					popG = g
+				}
+			}
+		})
 	}
 	if popG == nil {
-		w.viol("C16.R3", fnKey(vpop)+"/pop-hasher", vpop.Pos(), "BLSVerifyPOP does not verify with a package-level PoP hasher")
+		w.viol("C16.R3", fnKey(vpop)+"/pop-hasher", vpop.Pos(), "no package-level hasher is initialised as "+wantInit+": BLSVerifyPOP does not verify with a package-level PoP hasher keyed with the PoP suite")
 		return
+	}
+	popFn := func(fn *ssa.Function) bool {
+		if fn == vpop || fn == gpop {
+			return true
+		}
+		if !isNewHelper(fn) {
+			return false
+		}
+		for _, cs := range w.callersOfCached(fn) {
+			if cs.Parent() != vpop && cs.Parent() != gpop {
+				return false
+			}
+		}
+		return true
 	}
 	nInit := 0
 	for _, fn := range w.srcFuncs(rootPath) {
@@ -1402,7 +1435,7 @@ func ruleC16(w *World) {
 			case *ssa.UnOp:
 				if x.Op == token.MUL && x.X == popG {
 					// readers: only the two PoP functions, and the value only flows into Sign/Verify calls
-					okFn := fn == vpop || fn == gpop
+					okFn := popFn(fn)
 					w.check(okFn, "C16.R3", "global:"+popG.Name()+"/reader:"+fnKey(fn), x.Pos(), "PoP hasher read by a PoP function", "PoP hasher is read outside BLSGeneratePOP/BLSVerifyPOP (it could be handed out or used for ordinary signatures)")
 					for _, ref := range *x.Referrers() {
 						switch rr := ref.(type) {
@@ -1411,7 +1444,9 @@ func ruleC16(w *World) {
 							if rr.Common().IsInvoke() {
 								m = rr.Common().Method.Name()
 							}
-							w.check(m == "Sign" || m == "Verify", "C16.R3", "global:"+popG.Name()+"/use:"+fnKey(fn), rr.Pos(), "PoP hasher only passed to Sign/Verify", "PoP hasher flows into something other than Sign/Verify")
+							// passed as the hasher of Sign/Verify, or asked directly for the hash of the message (checked below to be the key encoding)
+							direct := m == "ComputeHash" && rr.Common().Value == ssa.Value(x)
+							w.check(m == "Sign" || m == "Verify" || direct, "C16.R3", "global:"+popG.Name()+"/use:"+fnKey(fn), rr.Pos(), "PoP hasher only passed to Sign/Verify (or hashing the key encoding directly)", "PoP hasher flows into something other than Sign/Verify")
 						default:
 							w.viol("C16.R3", "global:"+popG.Name()+"/use:"+fnKey(fn), ref.Pos(), "PoP hasher value escapes (stored/returned/converted)")
 						}
@@ -1424,6 +1459,42 @@ func ruleC16(w *World) {
 		w.viol("C16.R2", "global:"+popG.Name()+"/init", popG.Pos(), "PoP hasher is never initialised")
 	}
 	// PoP = Sign/Verify of Encode() of the same key
+	if len(callsTo(vpop, "Verify")) == 0 {
+		// no Verify call: the verification core is reached directly; it must be fed popHasher(pk.Encode()), the
+		// same key's point, and keep the guards Verify has (length, identity key)
+		pk := P(vpop, 0)
+		T := "(*" + a.pubT.Obj().Name() + ")"
+		sites := w.deepSites(vpop, func(ins ssa.Instruction) bool {
+			c, ok := ins.(*ssa.Call)
+			if !ok {
+				return false
+			}
+			n, isC := cgoName(c.Call.StaticCallee())
+			return isC && n == "bls_verify"
+		}, 3)
+		if len(sites) != 1 {
+			w.viol("C16.R3", fnKey(vpop)+"/message", vpop.Pos(), "BLSVerifyPOP neither calls Verify nor reaches exactly one C.bls_verify")
+		} else {
+			st := sites[0]
+			c := st.ins.(*ssa.Call)
+			facts := w.deepFacts(st)
+			has := func(x string) bool {
+				for _, f := range facts {
+					if f == x {
+						return true
+					}
+				}
+				return false
+			}
+			key := pk + "." + T + "#0"
+			hashArg := st.render(c.Call.Args[2])
+			okMsg := st.render(c.Call.Args[0]) == "&"+key+"."+a.ptFld && strings.Replace(hashArg, "&*", "&", 1) == "&"+popG.Name()+".ComputeHash("+key+".Encode())[0]" && st.render(c.Call.Args[1]) == "&"+P(vpop, 1)+"[0]"
+			w.check(okMsg, "C16.R3", fnKey(vpop)+"/message", c.Pos(), "verifies pop over pk.Encode() under pk", "BLSVerifyPOP does not verify the given proof over pk.Encode() under the same pk: "+st.render(c))
+			w.check(has(pk+"."+T+"#1 == true"), "C16.R3", fnKey(vpop)+"/typeguard", c.Pos(), "BLS type guard", "PoP verification core reached without the BLS key type guard", facts...)
+			w.check(has(key+"."+a.flagField+" == false"), "C16.R4", fnKey(vpop)+"/cgo:bls_verify", c.Pos(), "identity key rejected before the pairing", "BLSVerifyPOP reaches the verification core without rejecting the identity public key (the identity signature is a valid PoP for it)", facts...)
+			w.check(has(fmt.Sprintf("len(%s) == %d", P(vpop, 1), a.sigLen)), "C16.R3", fnKey(vpop)+"/length", c.Pos(), "proof length checked", "PoP verification core reached without the signature length guard", facts...)
+		}
+	}
 	for _, c := range callsTo(vpop, "Verify") {
 		cc := c.Common()
 		pk := P(vpop, 0)
